@@ -53,14 +53,20 @@ Definition record_docsym (S : symbol_map) (e : entry) : sres (option docsym) :=
   | _ => SOk None
   end.
 
+(** `record.define_loc.file == defset.define_loc.file` *)
+Definition same_file_as (e de : entry) : bool := fr_file (e_def de) =? fr_file (e_def e).
+
 Definition symbol_to_document_symbol (S : symbol_map) (s : symbol_id) : sres (option docsym) :=
   sbind (symbol S s) (fun e =>
   match fst s with
   | KRecord => record_docsym S e
   | KDefset =>
-      (* defset.def_list.iter().map(|id| symbol_map.symbol(id.into())).filter_map(|s| symbol_to_document_symbol(..)) *)
-      sbind (smap (fun id => sbind (symbol S (KRecord, id)) (record_docsym S)) (p_defs (e_payload e))) (fun ds =>
-      SOk (Some (DocSym (e_name e) (s2n "defset") (fr_lo (e_def e)) (fr_hi (e_def e)) DKDefset (filter_some ds))))
+      (* defset.def_list.iter()
+           .filter(|id| symbol_map.record(id).define_loc.file == defset.define_loc.file)      (fix 28899f7)
+           .map(|id| symbol_map.symbol(id.into())).filter_map(|s| symbol_to_document_symbol(..)) *)
+      sbind (smap (record S) (p_defs (e_payload e))) (fun des =>
+      sbind (smap (record_docsym S) (filter (same_file_as e) des)) (fun ds =>
+      SOk (Some (DocSym (e_name e) (s2n "defset") (fr_lo (e_def e)) (fr_hi (e_def e)) DKDefset (filter_some ds)))))
   | KMulticlass =>
       sbind (targ_docsyms S (p_targs (e_payload e))) (fun ts =>
       SOk (Some (DocSym (e_name e) (s2n "multiclass") (fr_lo (e_def e)) (fr_hi (e_def e)) DKMulticlass ts)))
